@@ -98,7 +98,9 @@ static std::string do_fmt(const Args &a) {
         } else {
             std::string f = "{";
             if (al == "l") f += "<"; else if (al == "r") f += ">";
-            if (pad) { f += "_"; f += (char)pad; }
+            // pad '0' has two spellings: "_0" and the printf-style "0" flag (which also sets numeric_pad, ignored for floats)
+            if (pad == '0' && a.num("zf")) f += "0";
+            else if (pad) { f += "_"; f += (char)pad; }
             if (sign) f += "+";
             if (w) f += std::to_string(w);
             if (has_prec) f += "." + std::to_string(prec);
@@ -176,10 +178,10 @@ static std::string val_args(const Val &v) {
 }
 static double val_double(const Val &v) { return v.isf ? (double)f_of((uint32_t)v.bits) : d_of(v.bits); }
 
-static std::string fmt_line(const char *route, const Val &v, char cls, bool has_prec, long prec, bool sign, long w, char al, int pad) {
+static std::string fmt_line(const char *route, const Val &v, char cls, bool has_prec, long prec, bool sign, long w, char al, int pad, bool zero_flag = false) {
     std::string reff = ref_format(sign, has_prec ? prec : -1, cls), rend = ref_render(reff, val_double(v));
     return std::string("flt.fmt route=") + route + " " + val_args(v) + " cls=" + cls + " prec=" + (has_prec ? std::to_string(prec) : "none") +
-           " sign=" + (sign ? "1" : "0") + " wid=" + std::to_string(w) + " al=" + al + " pad=" + std::to_string(pad) +
+           " sign=" + (sign ? "1" : "0") + " wid=" + std::to_string(w) + " al=" + al + " pad=" + std::to_string(pad) + (zero_flag ? " zf=1" : "") +
            " reff=" + hex_bytes(reff) + " rend=" + hex_bytes(rend);
 }
 static std::string from_line(const char *op, const std::string &ty, const Val &v, int c /* -1 = default argument */) {
@@ -240,7 +242,7 @@ static void gen(Emitter &em, const Options &opt) {
                             if (!thorough && (idx * 2654435761ULL >> 7) % 16 != 0) continue;
                             if (w == 0 && al != 'd' && idx % 3) continue;
                             int pad = (idx % 5 == 0) ? '*' : (idx % 7 == 0) ? '0' : 0;
-                            EMIT(fmt_line((idx % 4 == 0) ? "direct" : "text", v, cls, p >= 0, p, sign != 0, w, al, pad));
+                            EMIT(fmt_line((idx % 4 == 0) ? "direct" : "text", v, cls, p >= 0, p, sign != 0, w, al, pad, pad == '0' && (idx % 2)));
                         }
     // every value through from_float/from_double (all six letters + default), string_stream
     for (const Val &v : vals) {
@@ -276,7 +278,7 @@ static void gen(Emitter &em, const Options &opt) {
         char fl = "efgEFG"[rng.below(6)];     // every draw happens outside the lazily evaluated line
         if (kind == 0) EMIT(from_line("flt.from", v.isf ? "f" : "d", v, fl));
         else if (kind == 1) EMIT(from_line("flt.ss", v.isf ? "f" : "d", v, -1));
-        else EMIT(fmt_line(kind == 2 ? "direct" : "text", v, cls, p >= 0, p, sign, w, al, pad));
+        else EMIT(fmt_line(kind == 2 ? "direct" : "text", v, cls, p >= 0, p, sign, w, al, pad, pad == '0' && (i & 1)));
     }
 
     // ---- parsing: strings over the C12 alphabet plus e E . inf nan hex floats
